@@ -2,7 +2,9 @@
 package hself
 
 import (
+	"bytes"
 	"sort"
+	"strings"
 
 	"vh/rt"
 )
@@ -12,6 +14,7 @@ func init() {
 	rt.Register("Self_Ints", Self_Ints)
 	rt.Register("Self_Sort", Self_Sort)
 	rt.Register("Self_SortSlice", Self_SortSlice)
+	rt.Register("Self_Strings", Self_Strings)
 	rt.Register("Self_Twin", Self_Twin)
 	rt.Register("Self_Overflow", Self_Overflow)
 }
@@ -92,6 +95,39 @@ func Self_SortSlice() {
 	rt.Assert(l[0].k^l[1].k^l[2].k == sum, "same-elements")
 	rt.Assert(l[0].seq+l[1].seq+l[2].seq == 3, "permutation")
 	rt.ObsInt("first", l[0].k)
+}
+
+// Self_Strings: the engine's models of the assembly-backed byte searches
+// (strings/bytes Index, IndexByte, Contains, Count, Equal) against hand loops.
+func Self_Strings() {
+	b := []byte{rt.Byte("in"), rt.Byte("in"), rt.Byte("in")}
+	s := string(b)
+	first := -1
+	n := 0
+	for i := range b {
+		if b[i] == 'a' {
+			n++
+			if first < 0 {
+				first = i
+			}
+		}
+	}
+	rt.Assert(strings.IndexByte(s, 'a') == first, "indexbyte-string")
+	rt.Assert(bytes.IndexByte(b, 'a') == first, "indexbyte-bytes")
+	rt.Assert(strings.Count(s, "a") == n, "count")
+	ab := -1
+	for i := 0; i+1 < len(b); i++ {
+		if b[i] == 'a' && b[i+1] == 'b' {
+			ab = i
+			break
+		}
+	}
+	rt.Assert(strings.Index(s, "ab") == ab, "index-string")
+	rt.Assert(bytes.Index(b, []byte("ab")) == ab, "index-bytes")
+	rt.Assert(strings.Contains(s, "ab") == (ab >= 0), "contains")
+	rt.Assert(bytes.Equal(b, []byte("aab")) == (b[0] == 'a' && b[1] == 'a' && b[2] == 'b'), "equal")
+	rt.ObsInt("first", first)
+	rt.ObsInt("ab", ab)
 }
 
 // Self_Twin: a reachability twin — its final assertion is false, so the engine
